@@ -32,6 +32,7 @@ fix = Function('fix', SetS, Sq, I, I)    # index map of filt into s
 fjx = Function('fjx', SetS, Sq, I, I)    # inverse of the index map
 addall = Function('addall', Sq, Sq, Sq)  # s ++ first occurrences of members of t not already present
 cnt = Function('cnt', Sq, V, I)          # number of occurrences
+smap = Function('smap', MapS, Sq, Sq)     # [M[x] for x in s]
 seqeq = Function('seqeq', Sq, Sq, B)     # sequence equality: as a hypothesis it yields term equality (sequences are extensional),
 eqw = Function('eqw', Sq, Sq, I)         # as a goal it is refuted by a witness index where the two differ
 
@@ -60,6 +61,10 @@ def sentinel(name):
     if name not in _sentinels:
         _sentinels[name] = Const('S_' + name, V)
     return _sentinels[name]
+
+
+def v_is_int_(x):
+    return is_int(x)
 
 
 def bbox(b):
@@ -156,6 +161,9 @@ def axioms():
     # appending a duplicate-free sequence that shares no member with s is plain concatenation (inductive; Lean: lemmas/Filter.lean)
     A('addall_cat', ForAll([s, t], Or(addall(s, t) == cat(s, t), Not(nodup(t)), Exists([x], And(mem(t, x), mem(s, x)))), patterns=[addall(s, t)]))
     A('addall_len', ForAll([s, t], slen(addall(s, t)) >= slen(s), patterns=[addall(s, t)]))
+    M = Const('M', MapS)
+    A('smap_len', ForAll([M, s], slen(smap(M, s)) == slen(s), patterns=[smap(M, s)]))
+    A('smap_at', ForAll([M, s, i], Implies(And(0 <= i, i < slen(s)), at(smap(M, s), i) == Select(M, at(s, i))), patterns=[at(smap(M, s), i)]))
     # boxing
     A('ibox', ForAll([i], And(iunbox(ibox(i)) == i, is_int(ibox(i)), Not(is_ref(ibox(i))), Not(is_tup(ibox(i))), truthy(ibox(i)) == (i != 0)), patterns=[ibox(i)]))
     A('iunbox', ForAll([x], Implies(is_int(x), ibox(iunbox(x)) == x), patterns=[iunbox(x)]))
